@@ -97,6 +97,17 @@ def audit(ctx):
                 i += 1
             if len(re.findall(r'INTERNER\s*\.lock\(\)', code[mm.end():i])) > 1:
                 problems.append('%s: fn %s takes INTERNER.lock() more than once (one API call is no longer one atomic step)' % (name, mm.group(1)))
+    # 3c. the read side is lock-free (the model's `aread`): kind(), evaluation, rendering, comparison and negation never take the lock, so
+    #     user code they call (a Reporter) never runs under it
+    code = re.sub(r'//.*', '', files['tree.rs'])
+    for mm in re.finditer(r'\bfn\s+(\w+)[^{;]*\{', code):
+        i, d = mm.end(), 1
+        while d and i < len(code):
+            d += (code[i] == '{') - (code[i] == '}')
+            i += 1
+        if re.match(r'(evaluate|kind$|to_dnf|fmt$|cmp$|partial_cmp$|eq$|hash$|report_|is_true$|is_false$|contents$|try_to_string$|top_level_extra|negate$|children|debug_)', mm.group(1)) \
+                and re.search(r'INTERNER\s*\.lock\(\)', code[mm.end():i]):
+            problems.append('tree.rs: the read-side fn %s takes INTERNER.lock() (reads are lock-free in the model)' % mm.group(1))
     # 4. reads of the arena go through InternerShared::node only
     if re.search(r'\.nodes\b', re.sub(r'//.*', '', files['tree.rs'])):
         problems.append('tree.rs touches the arena directly')
@@ -205,4 +216,13 @@ def run(ctx):
             break
         elif r[1] != '0':
             ctx.failure('%s of %s and/or results computed concurrently differ from the sequential result, e.g. pair %s' % (r[1], r[2], dump(r[3])[:200]), how)
+    # (4) reads are lock-free (C15_lock_free_read_*): user code called back by a read (a Reporter) or running under a mutating call (the
+    # predicate of simplify_extras_with) may itself read markers, and a panicking Reporter poisons nothing
+    r = fw.batch(h, [['reent', markers.env_sexp(markers.DEFAULT_ENV), '20000']], timeout=60)[0]
+    ctx.evaluations += 1
+    ctx.oracle_cases += 1
+    if r == 'deadlock' or r == 'panicked' or r[0] != 'ok':
+        ctx.failure('marker operations issued from inside a Reporter / a simplify_extras_with predicate: %s' % dump(r)[:200], {'op': 'reent'})
+    elif len(r) > 1:
+        ctx.failure('call-backs during marker operations: ' + '; '.join(unS(x) for x in r[1:]), {'op': 'reent'})
     return fw.finish(ctx, 'make -C /verif/coq Props/C15.vo  (coqc, Print Assumptions under each theorem)')
